@@ -1841,6 +1841,7 @@ Proof.
   destruct (print_body_length stmts) as [L1 L2].
   assert (Hlen : (length (print_body stmts) < n)%nat).
   { subst n. rewrite !app_length. cbn [length]. lia. }
+  clearbody n.
   rewrite (parse_loop_print chk (S n) stmts n [] Hwf Hchk); [reflexivity|lia|].
   eapply Forall_impl; [|exact L2]. cbv beta. intros a [Ha Hb]. split; lia.
 Qed.
